@@ -283,6 +283,7 @@ def run(ctx):
     these = sorted(c.split("::{closure")[0] for c in ctx.callers_of("remapping_loop::do_remapping_loop_these_devices") if "::tests::" not in c)
     ck.ob("C16-R4", "-", "do_remapping_loop_these_devices-callers-are-the-filtered-entry-points", set(these) <= {"remapping_loop::do_remapping_loop_all_devices", "remapping_loop::do_remapping_loop_multiple_devices"}, detail=str(these))
     ck.explanation = "sibling comparison over %d line prefixes and %d intermediate values of the B: KEY= arm; listing and exclusion routes checked." % (len(p1), len(l1))
+    r5_mask_words(ctx, ck)
 
 
 def _pat_variant(p):
@@ -291,3 +292,82 @@ def _pat_variant(p):
     if p.get("k") == "Expr" and p["e"].get("k") == "Path":
         return p["e"]["res"].get("path", "").rsplit("::", 1)[-1]
     return p.get("k")
+
+
+def r5_mask_words(ctx, ck):
+    """parse_mask_hex: the KEY=/EV= mask is a list of 64-bit words, most significant first; the classification reads
+    fixed kernel key numbers out of it, so bit b of the w-th word FROM THE RIGHT must become number 64*w+b with w
+    counting EVERY word (a zero word still occupies its position)"""
+    from .. import ktloops
+    fn = "keyboard_listing::parse_mask_hex"
+    b = ctx.body(fn)
+    hexs = T("param", 1, b.dbg.get(1, ""))
+    outer = [h for h in b.loops() if not any(h in blks and hh != h for hh, blks in b.loops().items())]
+    ck.ob("C16-R5", fn, "one-loop-over-the-words", len(outer) == 1)
+    if len(outer) != 1:
+        return
+    h = outer[0]
+    il = ktloops.index_loop(b, h)
+    src = il.list_term
+    direct = isinstance(src, tuple) and src[0] == "call" and mir.method_name(src[1]) == "rsplit" and mir.strip(src[2][0]) == hexs and mir.const_int(src[2][1]) == 32
+    ck.ob("C16-R5", fn, "words-taken-from-the-right,every-one-of-them(no-filtering)", il.kind == "for-elements" and direct and il.complete,
+          detail=show(src)[:100] if src else None)
+    from .c13s import _err_exit
+    ck.ob("C16-R5", fn, "left-early-only-on-a-parse-error", not [p for p in il.break_paths if not _err_exit(p)])
+    # word counter
+    counters = set()
+    okc = bool(il.cont_paths)
+    for p in il.cont_paths:
+        sets = [e for e in p.events if e.kind == "set" and isinstance(e.b, tuple) and e.b[0] == "binop" and e.b[1] == "Add" and mir.const_int(e.b[3]) == 1
+                and isinstance(e.b[2], tuple) and e.b[2][0] == "loopvar" and e.b[2][2] == e.a]
+        data = [e for e in p.events if e.kind == "guard" and not (isinstance(e.a, tuple) and e.a[0] == "variantof")]
+        okc = okc and len(sets) == 1 and not data
+        for e in sets:
+            counters.add(e.a)
+    ck.ob("C16-R5", fn, "word-index-advances-by-one-for-every-word,unconditionally", okc and len(counters) == 1)
+    if len(counters) != 1:
+        return
+    cl = list(counters)[0]
+    init = [st for blk in (b.blocks.values() if isinstance(b.blocks, dict) else b.blocks) for st in blk["stmts"] if st["k"] == "assign" and not st["lhs"]["p"] and st["lhs"]["l"] == cl and st["rv"]["k"] == "use" and st["rv"]["op"]["k"] == "const"]
+    ck.ob("C16-R5", fn, "word-index-starts-at-0", len(init) == 1 and mir.const_int(mir.Evaluator(b, {}).operand(init[0]["rv"]["op"])) == 0)
+    inner = [hh for hh in b.loops() if hh != h and hh in b.loops()[h]]
+    okb = len(inner) == 1
+    if okb:
+        il2 = ktloops.index_loop(b, inner[0])
+        rng = None
+        for q in il2.cont_paths + il2.exh_paths:
+            for e in q.events:
+                if e.kind == "guard" and isinstance(e.a, tuple) and e.a[0] == "variantof" and isinstance(e.a[1], tuple) and e.a[1][0] == "next":
+                    rng = e.a[1][1][1]
+        okr = isinstance(rng, tuple) and rng[0] == "agg" and rng[1] == "std::ops::Range" and mir.const_int(rng[3][0]) == 0 and mir.const_int(rng[3][1]) in (63, 64) \
+            and bool(il2.exh_paths) and not il2.break_paths
+        ck.ob("C16-R5", fn, "bits-0..63-of-each-word-visited", okr, detail=show(rng)[:60] if rng else None)
+        bit = T("elem", T("iter", rng, "fwd"), inner[0]) if rng else None
+        seen = set()
+        for q in il2.cont_paths:
+            g = [(e.a, e.b) for e in q.events if e.kind == "guard" and not (isinstance(e.a, tuple) and e.a[0] == "variantof")]
+            ins = [e for e in q.events if e.kind == "call" and mir.method_name(e.a) == "insert"]
+            if len(g) != 1:
+                okb = False
+                continue
+            a, v = g[0]
+            # (num & (1 << i)) == 0   False  <=> bit set
+            is_test = isinstance(a, tuple) and a[0] == "eq" and any(isinstance(s_, tuple) and s_[:2] == ("binop", "BitAnd") for s_ in mir.subterms(a)) \
+                and any(isinstance(s_, tuple) and s_[:2] == ("binop", "Shl") and mir.const_int(s_[2]) == 1 for s_ in mir.subterms(a))
+            if not is_test:
+                # `!= 0` may also be normalised as not(eq)
+                is_test = any(isinstance(s_, tuple) and s_[:2] == ("binop", "BitAnd") for s_ in mir.subterms(a))
+            setbit = (v is False) if (isinstance(a, tuple) and a[0] == "eq") else (v is True)
+            seen.add(setbit)
+            if setbit:
+                want_ok = False
+                if len(ins) == 1:
+                    val = ins[0].b[1]
+                    want_ok = (isinstance(val, tuple) and val[0] == "binop" and val[1] == "Add" and isinstance(val[2], tuple) and val[2][0] == "cast"
+                               and isinstance(val[3], tuple) and val[3][0] == "binop" and val[3][1] == "Mul" and mir.const_int(val[3][3]) == 64
+                               and isinstance(val[3][2], tuple) and val[3][2][0] in ("var", "loopvar") and val[3][2][1 if val[3][2][0] == "var" else 2] == cl)
+                okb = okb and is_test and want_ok
+            else:
+                okb = okb and is_test and not ins
+        okb = okb and seen == {True, False}
+    ck.ob("C16-R5", fn, "a-set-bit-b-of-word-w-yields-number-64*w+b,a-clear-bit-nothing", okb)
